@@ -1,4 +1,29 @@
-//! topicstream: not built yet.
+//! Conformance harness for /verif/spec/TopicStream (C15, second half of C07).
+//!
+//! * `replay`: every behaviour exported by TLC (`MC_TopicStream.tla`, `hist`) is executed step by
+//!   step on a real `p2panda::Node` with a file-backed SQLite database.  The cfg-guarded schedule
+//!   points (`p2panda_core::verif::point`) in forge.rs / stream.rs / acked.rs / replay.rs park the
+//!   publisher, the stream task and the application's ack call; one specification action = release
+//!   one parked process until its next point.  After every step the persisted cursor, the stored
+//!   operations, the topic associations, ack results and delivered events are compared with the
+//!   state TLC computed.  `Crash` = drop of node, handles and runtime (in-process) or SIGKILL of a
+//!   child harness process hosting the node (`--crash kill`, thorough tier).
+//! * `record`: a seeded random scheduler drives the same machinery (the implementation decides
+//!   which point it reaches next), one NDJSON event per specification action; validated by TLC
+//!   against `Trace_TopicStream.tla`.  `--free N` additionally records free-running histories
+//!   (no schedule control) that are killed with SIGKILL at a random moment and re-opened.
+//! * `child`: hosts one node incarnation, commands on stdin, observations on stdout.
+mod driver;
+mod gate;
+mod inc;
+mod record;
+mod replay;
+
 pub fn run(args: &vh_common::Args) {
-    vh_common::unknown(args)
+    match args.mode.as_str() {
+        "replay" => replay::run(args),
+        "record" => record::run(args),
+        "child" => driver::child_main(args),
+        _ => vh_common::unknown(args),
+    }
 }
